@@ -16,7 +16,8 @@ from engine.core import res, violation, seed_offsets
 ID = "C07"
 LEVEL = "exploration"
 WORKERS = {"quick": 12, "thorough": 16}
-RULE = ("complete product mu x {L1..L5} x degree N x 76 directions x radius ladder (5 rungs); error exponent from the ladder (overall slope >= declared exponent - 0.75); "
+RULE = ("complete product mu x {L1..L5} x degree N x 76 directions x radius ladder (5 rungs), plus build histories in newly forked processes in which every ordered pair of builds over {L1..L5} x {3,4} occurs adjacently "
+        "(and the same build for two mass ratios alternately); error exponent from the ladder (overall slope >= declared exponent - 0.75); "
         "non-trivial = ladder with >= 2 halvings above the rounding floor; distinct = (mu, point, N, direction)")
 ASSUMPTIONS = [
     "reference energy E = v^2/2 - (x^2+y^2)/2 - (1-mu)/r1 - mu/r2 and reference field written in the harness",
@@ -196,7 +197,25 @@ def k_dir_one(params):
     return r
 
 
-KINDS = {"point": k_point, "dir_one": k_dir_one}
+def k_history(params):
+    """several expansions built one after the other in one process: each must still be the expansion of *its* point and degree
+    (a process-wide memo keyed by less than (mu, point, degree) shows here; every re-execution runs in a freshly forked process,
+    so the sequence below is the whole history)"""
+    viol, n, nt = {}, 0, 0
+    names = ["mu=%g L%d N%d" % tuple(x) for x in params["seq"]]
+    for i, (mu, Ln, N) in enumerate(params["seq"]):
+        r = k_point({"mu": mu, "point": Ln, "degs": [N], "r0": params["r0"], "all_dirs": False})
+        n += r["evals"]
+        nt += r["nontrivial"]
+        for v in r["viol"]:
+            key = "history/" + v["key"]
+            viol.setdefault(key, violation(key, "build %d of the sequence %s in one process: %s" % (i + 1, names, v["what"]), v["observed"], v["expected"], ("history", params)))
+    return res(evals=n, nontrivial=nt, viol=list(viol.values()), sample={"history": names})
+
+
+FRESH_KINDS = ("history",)
+NONDETERMINISM_IS_VIOLATION = True  # the expansion is a function of (mu, point, degree): a result that changes with what ran before is a violation
+KINDS = {"point": k_point, "dir_one": k_dir_one, "history": k_history}
 
 
 def cases(tier, seed):
@@ -210,4 +229,20 @@ def cases(tier, seed):
             degs = [2, 3, 4, 6, 8] if tier == "quick" else [2, 3, 4, 5, 6, 7, 8, 9, 10]
             for dg in degs:
                 out.append(("point", {"mu": mu, "point": Ln, "degs": [dg], "r0": 0.35 * (1 + 0.2 * o[0]), "all_dirs": tier != "quick"}))
+    # build histories, each in a newly forked process: for every element a of {L1..L5} x {3, 4} the sequence a b1 a b2 a b3 ... over all
+    # other elements (every ordered pair of distinct builds occurs adjacently, and every element is built again after every other one),
+    # and the same (point, degree) for two mass ratios alternately
+    alpha = [(Ln, N) for Ln in (1, 2, 3, 4, 5) for N in ((3, 4) if tier == "quick" else (3, 4, 6))]
+    r0 = 0.35 * (1 + 0.2 * o[0])
+    for a in alpha:
+        seq = []
+        for b in alpha:
+            if b != a:
+                seq += [[0.01215, a[0], a[1]], [0.01215, b[0], b[1]]]
+        seq.append([0.01215, a[0], a[1]])
+        out.append(("history", {"seq": seq, "r0": r0}))
+    seq = []
+    for a in alpha:
+        seq += [[0.01215, a[0], a[1]], [3.0e-6, a[0], a[1]], [0.01215, a[0], a[1]]]
+    out.append(("history", {"seq": seq, "r0": r0}))
     return out
